@@ -12,6 +12,10 @@ Round 3: every merge of the lines of ONE system uses the exclusive (conjunction)
 table; the zeros list is not reordered between building the test values and
 pairing the sign conditions; no function of symbolic / _symbolic writes module-
 level state.
+Round 4: the caller's constants are merged into _simplify's namespace after the
+import preamble; linear_symbolic prints its numbers verbatim; _prepare_sympy
+keeps every well-formed equation; markers are restored in descending index order
+(repair 0ff0759).
 NOT decided: everything that depends on sympy and on the sufficiency of random
 test points - the core of the property.
 """
